@@ -203,12 +203,13 @@ def schema_names(s):
     return [x["name"] for x in walk_schema(s) if x["name"] is not None]
 
 
-def sep_safe(sep, names):
+def sep_safe(sep, names, nd_rule=True):
     """No separator inside a name, and in x+sep+y (x, y names or indexes) the separator occurs
     exactly once, at offset len(x)."""
     if sep == "":
         return False
-    if any(unicodedata.category(c) == "Nd" for c in sep):
+    if nd_rule and any(unicodedata.category(c) == "Nd" for c in sep):
+        # outside the Lean model of the index recogniser (not an overlap in itself)
         return False
     toks = list(dict.fromkeys(list(names) + ["0", "19"]))
     for n in toks:
